@@ -12,7 +12,9 @@ Fixpoint anc_list (fuel : nat) (E : list (N * event)) (stack : list N) (acc : li
     if existsb (N.eqb x) acc then anc_list f E rest acc
     else match alookup x E with None => anc_list f E rest acc
          | Some ev => anc_list f E (epar ev ++ rest) (x :: acc) end end end.
-Definition anc E a := anc_list (S (length E) * 8)%nat E [a] [].
+(* fuel: one unit per pop; pops <= 1 + sum of all parent-list lengths (each event's parents are
+   pushed at most once).  proofs/FcSpecFacts.v: anc is the ancestor-or-self closure (anc_iff). *)
+Definition anc E a := anc_list (S (S (total_parents E))) E [a] [].
 Definition sees_fork E (A : list N) (v : nat) : bool :=
   existsb (fun x => existsb (fun y => negb (x =? y) &&
      match alookup x E, alookup y E with Some ex, Some ey => Nat.eqb (ecr ex) v && Nat.eqb (ecr ey) v && (eseq ex =? eseq ey) | _, _ => false end) A) A.
@@ -27,3 +29,25 @@ Definition merged_spec (n : nat) E (a : N) : list (bool * N) :=
   map (fun v => if sees_fork E A v then (true, 0) else
         (false, fold_left (fun m x => match alookup x E with Some ex => if Nat.eqb (ecr ex) v then N.max m (eseq ex) else m | None => m end) A 0)) (List.seq 0 n).
 
+
+(* ---------- table-driven evaluation of the same specification (used by the check driver; equal to
+   the definitions above by proofs/FcSpecFast.v: fc_spec_row_eq, merged_spec_t_eq) ---------- *)
+Definition anc_table (E : list (N * event)) : list (N * list N) := map (fun p => (fst p, anc E (fst p))) E.
+Definition anc_of (T : list (N * list N)) (x : N) : list N := match alookup x T with Some l => l | None => [] end.
+Definition resolve (E : list (N * event)) (A : list N) : list (N * event) :=
+  flat_map (fun x => match alookup x E with Some ex => [(x, ex)] | None => [] end) A.
+Definition sees_fork_res (R : list (N * event)) (v : nat) : bool :=
+  existsb (fun x => existsb (fun y => negb (fst x =? fst y) &&
+     (Nat.eqb (ecr (snd x)) v && Nat.eqb (ecr (snd y)) v && (eseq (snd x) =? eseq (snd y)))) R) R.
+Definition fc_spec_row (ws : list N) (q : N) (n : nat) E (T : list (N * list N)) (a : N) (bs : list N) : list bool :=
+  let A := anc_of T a in
+  let R := resolve E A in
+  let forks := map (sees_fork_res R) (List.seq 0 n) in
+  map (fun b => match alookup b E with None => false | Some eb =>
+    negb (sees_fork_res R (ecr eb)) &&
+    (q <=? wsum ws (map (fun v => negb (nth v forks false) &&
+        existsb (fun x => Nat.eqb (ecr (snd x)) v && existsb (N.eqb b) (anc_of T (fst x))) R) (List.seq 0 n))) end) bs.
+Definition merged_spec_t (n : nat) E (T : list (N * list N)) (a : N) : list (bool * N) :=
+  let R := resolve E (anc_of T a) in
+  map (fun v => if sees_fork_res R v then (true, 0) else
+        (false, fold_left (fun m x => if Nat.eqb (ecr (snd x)) v then N.max m (eseq (snd x)) else m) R 0)) (List.seq 0 n).
